@@ -78,8 +78,8 @@ def build(available, not_applicable):
         "checks": checks,
         "not_applicable": [{"property_id": p, "reason": r} for p, r in sorted(not_applicable.items())],
         "notes": "Exit codes: 0 held, 1 VIOLATION (with replay file), 2 HARNESS-ERROR (never a pass). "
-                 "Ten genuine defects were found by these checks; nine are repaired by 'fix:' commits in /repo "
-                 "(F1-F6, F8-F10); one (F7, mailboxes.id is a global key) is an open known finding for C06 and C17: "
+                 "Eleven genuine defects were found by these checks; ten are repaired by 'fix:' commits in /repo "
+                 "(F1-F6, F8-F11); one (F7, mailboxes.id is a global key) is an open known finding for C06 and C17: "
                  "see KNOWN_FINDINGS.txt and DESIGN.md section 6. DESIGN.md section 10 is the triage log of every "
                  "alarm raised on the unchanged tree, section 11 the record of which check catches which seeded "
                  "change (seeded/INDEX.md, mutants/).",
